@@ -27,7 +27,9 @@ BOUNDS = ("Inductive step from any pre-state satisfying I1 (machine-known axis =
           "transform only. Interpolated paths: the tracer frame condition (AST scan) reduces "
           "every vertex to one move() call, and the tracer's own emission code (polyline; the "
           "parametric() loop with curve function and segment filter stubbed) is run on two symbolic "
-          "vertices from every kind of pre-state.")
+          "vertices from every kind of pre-state. Plus TRUE histories from a freshly constructed builder "
+          "(no private pre-state, no invariant assumed): every pair of 15 motion calls and every "
+          "triple over an 8-call core alphabet (thorough: every triple), I1 checked after every call.")
 ASSUMPTIONS = [
     "arguments and coordinates are finite reals (non-finite arguments are C05/C08's subject)",
     "no bounds configured, no hooks, identity transform",
@@ -58,10 +60,13 @@ def _check_after(g, m, rec, pre, what):
                 return V(f"{what}-position-mismatch",
                          lambda: f"axis {a}: machine at {m.pos[a]!r}, builder reports {pos[i]!r}; "
                          f"output={rec.text()!r}")
-    if tuple(g.state.position) != tuple(pos) and not all(
-            num_eq(x, y) for x, y in zip(g.state.position, pos)):
-        return V(f"{what}-state-position-differs",
-                 lambda: f"builder.position={tuple(pos)!r} state.position={tuple(g.state.position)!r}")
+    spos = g.state.position
+    for i, a in enumerate("XYZ"):
+        # the state object's copy must agree wherever the machine coordinate is known (before the
+        # first motion call it reports 0 for axes nobody knows: not covered by the property)
+        if m.pos[a] is not None and not num_eq(spos[i], pos[i]):
+            return V(f"{what}-state-position-differs",
+                     lambda: f"builder.position={tuple(pos)!r} state.position={tuple(spos)!r}")
     if g.distance_mode.value != g.state.distance_mode.value:
         return V(f"{what}-state-mode-differs", lambda: f"{g.distance_mode} vs {g.state.distance_mode}")
     if (g.distance_mode.value == "relative") != m.relative:
@@ -319,6 +324,72 @@ def _make_tracer_emission(kind, rel, prepat):
     return h
 
 
+HIST = {
+    "move(x)": lambda g, a: g.move(x=a),
+    "move(y,z)": lambda g, a: g.move(y=a, z=2.5),
+    "rapid(z)": lambda g, a: g.rapid(z=a),
+    "move_absolute(x)": lambda g, a: g.move_absolute(x=a),
+    "rapid_absolute(y)": lambda g, a: g.rapid_absolute(y=a),
+    "set_axis(x)": lambda g, a: g.set_axis(x=a),
+    "set_axis(y,z)": lambda g, a: g.set_axis(y=a, z=-1.5),
+    "auto_home(x)": lambda g, a: g.auto_home(x=a),
+    "auto_home()": lambda g, a: g.auto_home(),
+    "probe(z)": lambda g, a: g.probe("towards", z=a),
+    "relative": lambda g, a: g.set_distance_mode("relative"),
+    "absolute": lambda g, a: g.set_distance_mode("absolute"),
+    "polyline": lambda g, a: g.trace.polyline([(a, 1.5), (2.5, a)]),
+}
+
+
+def _hist_ctx(g, kind, a):
+    if kind == "in-absolute_mode":
+        with g.absolute_mode():
+            g.move(x=a)
+    else:
+        with g.relative_mode():
+            g.move(y=a)
+
+
+HIST["in-absolute_mode"] = lambda g, a: _hist_ctx(g, "in-absolute_mode", a)
+HIST["in-relative_mode"] = lambda g, a: _hist_ctx(g, "in-relative_mode", a)
+
+
+def _make_history(seq):
+    """A TRUE history from a freshly constructed builder (all axes unknown, no private pre-state,
+    no invariant assumed): I1 must hold after every call."""
+    from gscrib import GCodeBuilder
+    from ..fixture import Rec
+
+    def core(vals):
+        from ..shims import TOKENS
+        if MODE.symbolic:
+            TOKENS.clear()
+        g = GCodeBuilder(line_endings="\\n")
+        rec = Rec()
+        g.add_writer(rec)
+        pre = mkpre()
+        for k, (name, a) in enumerate(zip(seq, vals)):
+            e = attempt(HIST[name], g, a)
+            if e is not None:
+                msg = f"{exc_name(e)}: {e}"
+                return V("history-unexpected-exception", lambda: f"{seq[:k + 1]}: {msg}")
+            m = RefMachine(tokens())
+            v = _check_after(g, m, rec, pre, "history")
+            if v is not None:
+                inner = v
+                return V(inner.kind, lambda: inner.text() + f" | after {seq[:k + 1]} with values {vals[:k + 1]!r}")
+        reached("emitted")
+        return None
+
+    if len(seq) == 2:
+        def h(a: Finite, b: Finite):
+            return core([a, b])
+    else:
+        def h(a: Finite, b: Finite, c: Finite):
+            return core([a, b, c])
+    return h
+
+
 def _pname(p):
     return "".join("n" if has else "-" for has in p)
 
@@ -367,6 +438,14 @@ def cells(tier):
                 name = f"trace:{kind}|{'rel' if rel else 'abs'}|pre={_pname(prepat)}"
                 out.append(Cell(name, _make_tracer_emission(kind, rel, prepat), budget_s=budget,
                                 must_reach=("emitted",), entry=f"PathTracer.{kind} (emission)"))
+    names = list(HIST)
+    hseqs = list(itertools.product(names, repeat=2))
+    core3 = ["move(x)", "move(y,z)", "set_axis(x)", "auto_home(x)", "probe(z)", "relative",
+             "in-absolute_mode", "move_absolute(x)"]
+    hseqs += list(itertools.product(core3 if quick else names, repeat=3))
+    for seq in hseqs:
+        out.append(Cell("history|" + ",".join(seq), _make_history(seq), budget_s=budget,
+                        must_reach=("emitted",), entry="GCodeBuilder (history from a fresh builder)"))
     kinds = ["abs", "rel", "abs-in-rel", "rel-in-abs", "abs-raise", "rel-raise", "abs-switch",
              "rel-switch"]
     for kind in kinds:
